@@ -367,7 +367,9 @@ class Miller(Vector3d):
 
     def __getitem__(self, key) -> Self:
         """NumPy fancy indexing of vectors."""
-        m = self.__class__(xyz=self.data[key], phase=self.phase).deepcopy()
+        m = self.__class__(
+            xyz=self.data[self._navigation_key(key)], phase=self.phase
+        ).deepcopy()
         m.coordinate_format = self.coordinate_format
         return m
 
